@@ -791,6 +791,24 @@ def _havoc(I, env, pth, label):
         o.attrs[pth[-1]] = fresh_like(o.attrs[pth[-1]])
 
 
+class LoopState(dict):
+    """the loop-modified program state handed to an invariant, by access path. An invariant that names a local the loop no
+    longer modifies (renamed or restructured code) does not apply any more: that is *undecided*, not a violation."""
+
+    def _missing(self, key):
+        raise Unsupported(f"the loop invariant of the contract names the local '{key}', which this loop does not modify (renamed or restructured code)")
+
+    def __contains__(self, key):
+        if not dict.__contains__(self, key):
+            self._missing(key)
+        return True
+
+    def __getitem__(self, key):
+        if not dict.__contains__(self, key):
+            self._missing(key)
+        return dict.__getitem__(self, key)
+
+
 def symbolic_for(I, st, it, env, module):
     """`for x in <symbolic sequence>`: cut at the loop head.
        init:   invariant holds for rest = xs                                   (obligation inv<k>.init)
@@ -819,7 +837,7 @@ def symbolic_for(I, st, it, env, module):
     mod = sorted((_mutated_paths(st.body) | set(getattr(spec, "extra_mutated", ()) or ())) - {(n,) for n in _target_names(st.target)})
 
     def state():
-        out = {}
+        out = LoopState()
         for pth in mod:
             try:
                 v = env.lookup(pth[0])
@@ -889,7 +907,7 @@ def symbolic_while(I, st, env, module):
     mod = sorted(_mutated_paths(st.body))
 
     def state():
-        out = {}
+        out = LoopState()
         for pth in mod:
             try:
                 v = env.lookup(pth[0])
